@@ -44,7 +44,7 @@ def _case(draw, tier):
             "prior": draw(st.sampled_from(["absent", "unref", "ref"])),
             "cks": cks, "cks_algo": draw(gen.algo_spelling()), "size": size,
             "dsize": draw(st.sampled_from([-1, 1, 7])), "flip": draw(st.integers(0, 200)),
-            "kind": draw(st.sampled_from(["str", "path", "file", "bytesio", "gzip", "rwfile"])),
+            "kind": draw(st.sampled_from(["str", "path", "file", "bytesio", "gzip", "rwfile", "relpath"])),
             # delete_if_invalid_object only: an earlier VALID call on the same ObjectMetadata (the verdict must
             # not depend on it)
             "dii_first": draw(st.sampled_from(["none", "none", "right", "upper"])),
